@@ -29,6 +29,12 @@ fn inits() -> Vec<(String, InitKind)> {
         ("S7 live, classic, guard off".to_string(), InitKind::Live { classic: true }),
         ("S7 streaming, classic, guard off".to_string(), InitKind::Streaming { classic: true }),
         ("S7 link 0 after REG_ERR, classic".to_string(), InitKind::AfterRegErr { link: 0, classic: true }),
+    ]
+}
+
+/// "starting from any window vector": the two edges of the range
+fn edge_inits() -> Vec<(String, InitKind)> {
+    vec![
         ("S7 streaming, classic, windows at the floor (1000, 1037, 1100, ...)".to_string(), InitKind::WindowEdge { floor: true }),
         ("S7 streaming, classic, windows at the ceiling (60000, 59999, 59972, ...)".to_string(), InitKind::WindowEdge { floor: false }),
     ]
@@ -39,6 +45,9 @@ fn models(tier: Tier) -> Vec<(String, Arc<StreamModel>, Vec<Plan>)> {
     let or = Oracles { c01: false, c03: true, c04: false, c10: true, c05: true };
     let mk = |name: &str, n: usize, reduced: bool| {
         Arc::new(StreamModel { name: name.to_string(), n, events: alphabet(n, reduced), inits: inits(), or })
+    };
+    let mk_edge = |name: &str, n: usize, reduced: bool| {
+        Arc::new(StreamModel { name: name.to_string(), n, events: alphabet(n, reduced), inits: edge_inits(), or })
     };
     let closed_loop: Arc<dyn Fn(usize) -> usize + Send + Sync> = Arc::new(|p| match p % 8 {
         7 => 3,          // Tflush
@@ -54,6 +63,12 @@ fn models(tier: Tier) -> Vec<(String, Arc<StreamModel>, Vec<Plan>)> {
         out.push((m.name.clone(), m, vec![Plan::Full { depth: 4 }]));
         let m = mk("links=3 reduced alphabet", 3, true);
         out.push((m.name.clone(), m, vec![Plan::Full { depth: 4 }]));
+        let m = mk_edge("window edges links=2 reduced alphabet", 2, true);
+        out.push((m.name.clone(), m, vec![Plan::Full { depth: 5 }]));
+        let m = mk_edge("window edges links=2 full alphabet", 2, false);
+        out.push((m.name.clone(), m, vec![Plan::Full { depth: 4 }]));
+        let m = mk_edge("window edges links=3 reduced alphabet", 3, true);
+        out.push((m.name.clone(), m, vec![Plan::Full { depth: 4 }]));
     } else {
         let m = mk("links=2 reduced alphabet", 2, true);
         out.push((m.name.clone(), m, vec![Plan::Full { depth: 6 }, Plan::Dev { k: 2, depth: 200, default: closed_loop.clone() }]));
@@ -62,6 +77,12 @@ fn models(tier: Tier) -> Vec<(String, Arc<StreamModel>, Vec<Plan>)> {
         let m = mk("links=3 full alphabet", 3, false);
         out.push((m.name.clone(), m, vec![Plan::Full { depth: 4 }, Plan::Dev { k: 2, depth: 80, default: closed_loop.clone() }]));
         let m = mk("links=4 full alphabet", 4, false);
+        out.push((m.name.clone(), m, vec![Plan::Full { depth: 4 }]));
+        let m = mk_edge("window edges links=2 reduced alphabet", 2, true);
+        out.push((m.name.clone(), m, vec![Plan::Full { depth: 6 }, Plan::Dev { k: 2, depth: 60, default: closed_loop.clone() }]));
+        let m = mk_edge("window edges links=2 full alphabet", 2, false);
+        out.push((m.name.clone(), m, vec![Plan::Full { depth: 5 }]));
+        let m = mk_edge("window edges links=3 full alphabet", 3, false);
         out.push((m.name.clone(), m, vec![Plan::Full { depth: 4 }]));
     }
     out
@@ -87,7 +108,7 @@ pub fn run(tier: Tier) -> Report {
             json!((0..m.n_events()).map(|e| m.event_name(e)).collect::<Vec<_>>()),
         );
     }
-    rep.set("inits", json!(inits().iter().map(|i| i.0.clone()).collect::<Vec<_>>()));
+    rep.set("inits", json!(inits().iter().chain(edge_inits().iter()).map(|i| i.0.clone()).collect::<Vec<_>>()));
     rep.set("oracle", json!("reference rules written from the statement, integers only: choice = first maximum over usable links of window / (in-flight + queued + 1) (integer division), whatever the packet kind, R flag or critical window; SRTLA ACK: the holder (arrival link first, else first other) gains +29 iff in-flight x 1000 > window after the decrement, then every connected link that has been heard gains +1, all capped at 60000; -100 per charged NAK floored at 1000; housekeeping never moves a window except a teardown back to 20000. After every client datagram the link that received the unique copy equals the reference choice; after every uplink datagram and housekeeping pass all windows equal the reference windows"));
     rep.assume("mode classic and guard off are set through the real control dispatcher; start windows are those the scripted real histories produce (20000 +- ACK/NAK steps)");
     rep.assume("the select! glue is mirrored (world.rs) and bound by a call-order + token digest fingerprint");
